@@ -3,6 +3,7 @@ package main
 // Path exploration: decisions, path condition, obligations, counterexamples.
 
 import (
+	"os"
 	"fmt"
 	"go/types"
 	"sort"
@@ -210,6 +211,9 @@ func concretize(t *Term) uint64 {
 	} else {
 		p.pos++
 	}
+	if len(excl) == 0 && os.Getenv("GOSMT_CONCDEBUG") != "" {
+		fmt.Fprintln(os.Stderr, "concretize at", dbgWhere())
+	}
 	if len(excl) > 1024 {
 		panic(pathAbort{"a symbolic value used as a size or bound has more than 1024 feasible values: not enumerated", true})
 	}
@@ -398,6 +402,7 @@ func runPath(i *interpreter, fn value, prefix []decision) (out pathOutcome) {
 	i.spawned = nil
 	resetWatch()
 	i.schedOn, i.schedFrom, i.nextGo = false, 0, 0
+	sch, timerRecs = nil, nil
 	defer func() {
 		journalOn = false
 		rollback()
@@ -428,6 +433,7 @@ func runPath(i *interpreter, fn value, prefix []decision) (out pathOutcome) {
 				out = pathOutcome{"engine", fmt.Sprintf("host panic: %v", r)}
 			}
 		}()
+		defer threadsEnd()
 		call(i, nil, 0, fn, nil)
 	}()
 	return
